@@ -123,25 +123,35 @@ def build_go2lean():
 
 
 def regen():
-    """Regenerate lean/F3/Gen from /repo's working tree. Returns (ok, message)."""
+    """Regenerate lean/F3/Gen from /repo's working tree: tools/go2lean/targets.json -> Gen/Core.lean
+    (namespace F3.Gen) and every tools/go2lean/targets.d/<Name>.json -> Gen/<Name>.lean (namespace
+    F3.Gen.<Name>). Returns (ok, message)."""
     tool = build_go2lean()
     gen = os.path.join(LEAN, "F3", "Gen")
     os.makedirs(gen, exist_ok=True)
-    out_path = os.path.join(gen, "Core.lean")
-    tmp = out_path + ".new"
-    if os.path.exists(tmp):
-        os.remove(tmp)
-    rc, out = sh([tool, REPO, os.path.join(VERIF, "tools", "go2lean", "targets.json"), tmp])
-    if rc != 0 or not os.path.exists(tmp):
-        if os.path.exists(out_path):
-            os.remove(out_path)
-        return False, out.strip()
-    # keep mtime stable when nothing changed so lake does not rebuild
-    if os.path.exists(out_path) and open(out_path).read() == open(tmp).read():
-        os.remove(tmp)
-    else:
-        os.replace(tmp, out_path)
-    return True, ""
+    jobs = [(os.path.join(VERIF, "tools", "go2lean", "targets.json"), "Core", "F3.Gen")]
+    for f in sorted(glob.glob(os.path.join(VERIF, "tools", "go2lean", "targets.d", "*.json"))):
+        n = os.path.splitext(os.path.basename(f))[0]
+        jobs.append((f, n, "F3.Gen." + n))
+    ok_all, msgs = True, []
+    for cfg, name, ns in jobs:
+        out_path = os.path.join(gen, name + ".lean")
+        tmp = out_path + ".new"
+        if os.path.exists(tmp):
+            os.remove(tmp)
+        rc, out = sh([tool, REPO, cfg, tmp, ns])
+        if rc != 0 or not os.path.exists(tmp):
+            if os.path.exists(out_path):
+                os.remove(out_path)
+            ok_all = False
+            msgs.append(out.strip())
+            continue
+        # keep mtime stable when nothing changed so lake does not rebuild
+        if os.path.exists(out_path) and open(out_path).read() == open(tmp).read():
+            os.remove(tmp)
+        else:
+            os.replace(tmp, out_path)
+    return ok_all, "; ".join(msgs)
 
 
 def theorems_of(prop):
